@@ -187,7 +187,7 @@ def gen_chain(rng, opts=None):
               "record_streams": rng.random() < 0.5, "use_dsse": opts.get("dsse", rng.random() < 0.4),
               "compact_json": rng.random() < 0.3, "record_environment": rng.random() < 0.3,
               "metadata_directory": rng.random() < 0.25, "two_phase": rng.random() < opts.get("p_two_phase", 0.25),
-              "no_command": False}
+              "no_command": False, "stop_retry": rng.random() < 0.5}
         st["out_repeat"] = 1
         if st["out"] == "BURST":
             st["out"], st["out_repeat"] = "0123456789abcde\n" * 64, 700         # 1 KiB x 700
@@ -195,8 +195,11 @@ def gen_chain(rng, opts=None):
             st["no_command"], st["ops"] = True, []
         st.update(common)
         steps.append(st)
+    fi = simple and rng.random() < 0.8
+    if opts.get("force_two_inspections") and simple:
+        fi = True
     return {"tree": fstree.spec_json(spec), "steps": steps, "simple": simple,
-            "final_inspection": simple and rng.random() < 0.8}
+            "final_inspection": fi, "two_inspections": fi and (rng.random() < 0.5 or bool(opts.get("force_two_inspections")))}
 
 
 # ---------------------------------------------------------------------------------------------
@@ -288,6 +291,15 @@ def run_step(project, linkdir, st, tamper=None):
                                         use_dsse=st["use_dsse"], **rkw)
                 rec["unfinished_after_start"] = sorted(f for f in os.listdir(".") if f.endswith(".link-unfinished"))
                 subprocess.run(cmd, check=False, stdout=subprocess.DEVNULL, stderr=subprocess.DEVNULL)
+                if st.get("stop_retry"):
+                    # a first attempt to finish that cannot store the link (its metadata directory does not exist):
+                    # nothing is lost, the retry below finishes the step
+                    try:
+                        rl.in_toto_record_stop(st["name"], paths, signer=key.signer, command=cmd,
+                                               metadata_directory=os.path.join(linkdir, "no-such-dir"), **rkw)
+                        rec["first_stop"] = "returned"
+                    except Exception as e:  # noqa
+                        rec["first_stop"] = type(e).__name__
                 rl.in_toto_record_stop(st["name"], paths, signer=key.signer, command=cmd, metadata_directory=mdir, **rkw)
                 md = None  # record_stop returns nothing: the file is read below
             else:
@@ -377,6 +389,10 @@ def derive_layout(rng, chain, recs, family="R"):
     if chain.get("final_inspection") and steps:
         last = chain["steps"][-1]["name"]
         req = sorted(recs[-1]["payload"]["products"])
+        if chain.get("two_inspections"):
+            # an inspection that constrains nothing runs first: every inspection records the final product
+            inspections.append(Inspection(name="first", run=[sys.executable, "-c", "pass"],
+                                          expected_materials=[["ALLOW", "*"]], expected_products=[["ALLOW", "*"]]))
         inspections.append(Inspection(name="final", run=[sys.executable, "-c", "pass"],
                                       expected_materials=[["REQUIRE", f] for f in req] +
                                       [["MATCH", "*", "WITH", "PRODUCTS", "FROM", last], ["DISALLOW", "*"]],
@@ -391,7 +407,7 @@ def sign_layout(layout, owner, dsse=False):
     return md
 
 
-def verify_chain(ctx, layout_md, owner, project, linkdir, extra_rows=(), params=None):
+def verify_chain(ctx, layout_md, owner, project, linkdir, extra_rows=(), params=None, base_path_setting=None):
     """real in_toto_verify with cwd = a copy of the project tree (the final product) + the model's verify on the same
     files.  Returns (impl outcome, model request)."""
     import in_toto.runlib
@@ -419,6 +435,12 @@ def verify_chain(ctx, layout_md, owner, project, linkdir, extra_rows=(), params=
     vscen.FixedClock.NOW_US = vscen.NOW_US
     vl.datetime.datetime = vscen.FixedClock
     in_toto.runlib.in_toto_run = fake_run
+    import in_toto.settings as _st
+    old_bp = _st.ARTIFACT_BASE_PATH
+    if base_path_setting is not None:
+        # the verifying process has a base path configured for its OWN recordings: inspections record the final product
+        # (the working directory) all the same
+        _st.ARTIFACT_BASE_PATH = base_path_setting
     try:
         with fstree.in_dir(final), quiet():
             md = Metadata.load(rootpath)
@@ -432,6 +454,7 @@ def verify_chain(ctx, layout_md, owner, project, linkdir, extra_rows=(), params=
     finally:
         vl.datetime.datetime = old_dt
         in_toto.runlib.in_toto_run = real_run
+        _st.ARTIFACT_BASE_PATH = old_bp
     # the model's view of the very same files
     tree = {"files": {}, "dirs": {}}
     for fn in sorted(os.listdir(linkdir)):
